@@ -5,6 +5,9 @@ VERIF = os.path.dirname(os.path.dirname(os.path.abspath(__file__)))
 ALL = ["C%02d" % i for i in range(1, 21)]
 
 CHECKS = {
+ "C15": dict(engine="I+H", technique="exhaustive datagram sweeps (every truncation, count value, pointer redirection, byte substitution, short tail) through the real reply parser in forked workers on a small stack with ASan/UBSan + two-paint stack differential (+valgrind in thorough) against independent decoders; explicit-state BFS to a fixpoint over lookup/cancel/reply/tick histories under a virtual clock",
+   text="Each datagram of the enumerated families is delivered to a real DnsRequest with an outstanding lookup, twice on equal object state after painting the dead stack with two patterns: it must terminate on a 256 KiB stack, be sanitizer-clean, give paint-independent results, and report only addresses/names an independent decoder finds in the datagram. All histories of request/cancel/replies of every kind from either server/duplicates/unknown ids/ticks are explored to a fixpoint: each lookup's callback exactly once, never after cancel.",
+   note="Trusted: the strict and generous reference decoders (readings L1-L6 in the harness), stack painting as proof of uninitialised-memory independence, interposed sendto and clock.", ref="2/C15"),
  "C13": dict(engine="H+I", technique="explicit-state BFS over keystroke and command histories on the real Terminal through a fake connection against a reference line editor/history; exhaustive byte-string/segmentation sweeps through the real Telnetd and TcpRpc front ends in persistent forked workers under ASan/UBSan",
    text="Every keystroke sequence up to the depth over printable characters and editing/history keys is compared with a reference editor (line executed at Enter, one prompt per Enter); every command sequence over probe/history/!!/!n/!-n/exit with boundary and overflowing integers on histories of length 0/1/20/21 must re-run exactly the addressed entry or report an error; every byte string up to length 4/5 over a telnet/escape alphabet in every 2-way segmentation, all frame truncations and teardown sequences must leave the process alive, sanitizer-clean, exception-free, segmentation-independent and still answering a probe command.",
    note="Trusted: reference editor conventions (DESIGN 1.7), ASan/UBSan, interposed epoll_wait for idle steps; a crash is attributed to one job by a persistent forked worker.", ref="2/C13"),
